@@ -176,10 +176,13 @@ void h_search(void)
   __CPROVER_assert(iora_exc != EXC_NONE || name.n <= RFC_MAX_TEXT, "D3");
   __CPROVER_assert(v.gv_followed <= 1, "D6");
 }
-/* SEARCH for S-A2: a name of exactly 255 wire octets (labels 63+63+63+61 of 'a'); concrete, only to hand REPLAY an input */
+/* SEARCH for S-A2: a name of exactly 255 wire octets (labels 63+63+63+61, arbitrary label bytes); only to hand REPLAY an input.
+ * havoc_object instead of a byte loop: the decode loop needs 5 iterations, the initialisation would need 255. */
 void h_search_long(void)
 {
-  uint8_t IN[255] = { [0] = 63, [1 ... 63] = 97, [64] = 63, [65 ... 127] = 97, [128] = 63, [129 ... 191] = 97, [192] = 61, [193 ... 253] = 97, [254] = 0 };
+  uint8_t IN[255];
+  __CPROVER_havoc_object(IN);
+  __CPROVER_assume(IN[0] == 63 && IN[64] == 63 && IN[128] == 63 && IN[192] == 61 && IN[254] == 0);
   IORA_TRUE = 1; iora_exc = EXC_NONE; G_msg_size = 255; GV = nondet_u16(); GK = nondet_size_t();
   iora_ostr name = iora_ostr_DEFAULT; iora_u16set v = iora_u16set_DEFAULT;
   size_t r = decodeNameWithLoopDetection(IN, 0, 255, &name, &v);
